@@ -185,9 +185,23 @@ def run_real(order, L, dt, k_total, jumps, state_name):
     obs = [Observable("z", i) for i in range(L)] + [Observable("x", 0)]
     p = AnalogSimParams(obs, elapsed_time=k_total * dt, dt=dt, order=order, sample_timesteps=True, show_progress=False,
                         threshold=1e-14, max_bond_dim=64)
-    nm = NoiseModel([], scheduled_jumps=[{"time": k * dt, "sites": sites, "name": name} for (k, sites, name) in jumps])
+    nm = NoiseModel([], scheduled_jumps=[jump_dict(j, dt) for j in jumps])
     simulator.run(MPS(L, state=state_name), MPO.ising(L, 1.0, 0.7), p, nm, parallel=False)
     return np.array([np.real(o.results) for o in obs]), len(p.times)
+
+
+def user_matrix(seed, nsites):
+    """the operator a user supplies with a scheduled jump (deterministic in the seed; generic, not unitary)"""
+    r = np.random.default_rng(seed)
+    d = 2**nsites
+    return np.eye(d, dtype=complex) * 0.4 + 0.6 * (r.normal(size=(d, d)) + 1j * r.normal(size=(d, d)))
+
+
+def jump_dict(j, dt):
+    d = {"time": j[0] * dt, "sites": list(j[1]), "name": j[2]}
+    if len(j) > 3 and j[3] is not None:
+        d["matrix"] = user_matrix(j[3], len(j[1]))
+    return d
 
 
 def run_dense(L, dt, k_total, jumps, state_name):
@@ -199,9 +213,10 @@ def run_dense(L, dt, k_total, jumps, state_name):
     cols = [[dense.expect(v, o) for o in ops]]
     for j in range(1, k_total + 1):
         v = dense.evolve(h, v, dt)
-        for (k, sites, name) in jumps:
+        for jmp in jumps:
+            k, sites, name = jmp[0], jmp[1], jmp[2]
             if k == j:
-                m = np.asarray(NoiseModel.get_operator(name), dtype=complex)
+                m = np.asarray(NoiseModel.get_operator(name), dtype=complex) if len(jmp) < 4 or jmp[3] is None else user_matrix(jmp[3], len(sites))
                 if len(sites) == 1:
                     full = dense.op_on(L, {sites[0]: m})
                 else:
@@ -222,7 +237,7 @@ def jump_oracle(args):
     tol = 5e-3 if args["L"] > 2 else 1e-5
     bad = [int(j) for j in np.nonzero(err > tol)[0]]
     if bad:
-        kmin = min(k for k, _, _ in args["jumps"])
+        kmin = min(j[0] for j in args["jumps"])
         when = "before" if bad[0] < kmin else "at/after"
         return (f"order {args['order']}: results differ from 'apply once at t_k' by {err[bad[0]]:.3e} at column {bad[0]} "
                 f"({when} the scheduled index {kmin})")
@@ -234,6 +249,11 @@ DIRECTED = [
     [(2, [1], "lowering"), (2, [0, 1], "crosstalk_xy")],
     [(1, [0], "raising"), (1, [0], "x")],
     [(3, [1, 2], "crosstalk_zx"), (3, [1], "raising"), (3, [2], "y")],
+    # operators supplied by the user, under a name of their own and under names the library also knows
+    [(2, [1], "my_kick", 11)],
+    [(2, [1], "x", 12)],
+    [(1, [0], "lowering", 13), (3, [2], "pauli_x")],
+    [(2, [1, 2], "crosstalk_xx", 14)],
 ]
 
 
@@ -262,9 +282,12 @@ def search(ctx):
                 a = int(ctx.rng.integers(0, L - 1))
                 jumps.append((k, [a, a + 1], str(ctx.rng.choice(["crosstalk_xy", "crosstalk_zx", "raising_two"]))))
         state = str(ctx.rng.choice(["x+", "y+", "zeros"]))
-        if any(nm in ("raising_two",) for _, _, nm in jumps) and state == "zeros":
+        if ctx.rng.random() < 0.3:  # one of them carries the user's own matrix (under whatever name it has)
+            q = int(ctx.rng.integers(0, len(jumps)))
+            jumps[q] = (*jumps[q], int(ctx.rng.integers(1, 10**6)))
+        if any(j[2] in ("raising_two",) for j in jumps) and state == "zeros":
             state = "x+"
-        if any(nm == "lowering" for _, _, nm in jumps) and state == "zeros":
+        if any(j[2] == "lowering" for j in jumps) and state == "zeros":
             state = "x+"
         args = dict(order=order, L=L, dt=0.05 if L == 2 else 0.02, k_total=k_total, jumps=jumps, state=state)
         try:
